@@ -6,36 +6,36 @@
    A trace:  [ee    |-> [has41, d, outbits, inbits, other],   d = bytes of category 41
               relax |-> <<"O1", ...>>,                         relaxations in force (see EscInit)
               nf    |-> number of FMMUs,
-              init  |-> [nz, al],                              the ESC before the first call
+              init  |-> [regs, al],                              the ESC before the first call
               ev    |-> << [k |-> "call", op, has_rel, has_abs, abs, a, b],
                            [k |-> "w", t, ado, data],          t = 0: the terminal called
-                           [k |-> "ret", ok, view, nz, al, other],
+                           [k |-> "ret", ok, view, regs, al, other],
                            [k |-> "env", what |-> "al" / "newobj", al] >>]
-   nz = sparse register dump <<address, byte>> of the non-zero tracked registers.  The dump at
+   regs = register dump (see EscOf).  The dump at
    a return must equal the specification's own register file: the simulator and EscWrite agree. *)
 EXTENDS EscInit, TLC, Json, IOUtils
 Traces == JsonDeserialize(IOEnv.TRACE_FILE)
 VARIABLES tid, l
 tvars == <<evars, tid, l>>
 
-RECURSIVE Fill(_, _, _)
-Fill(r, nz, k) == IF k > Len(nz) THEN r ELSE Fill([r EXCEPT ![nz[k][1]] = nz[k][2]], nz, k + 1)
-RegOf(nz, nf) == Fill([a \in Tracked(nf) |-> 0], nz, 1)
+(* a register dump: [station, wd |-> <<divider, PDI, process>>, fmmu |-> <<16 bytes>> per FMMU,
+   sm |-> <<8 bytes>> per sync manager]                                                       *)
+EscOf(regs, al, nf) == [station |-> regs.station, wd |-> regs.wd, fmmu |-> regs.fmmu, sm |-> regs.sm,
+                        al |-> al, nf |-> nf]
 SeqSet(s) == {s[i] : i \in 1 .. Len(s)}
 
 TInit == /\ tid \in 1 .. Len(Traces) /\ l = 1
          /\ ee = [has41 |-> Traces[tid].ee.has41, d |-> Traces[tid].ee.d,
                   outbits |-> Traces[tid].ee.outbits, inbits |-> Traces[tid].ee.inbits,
                   other |-> Traces[tid].ee.other, rx |-> SeqSet(Traces[tid].relax)]
-         /\ esc = [reg |-> RegOf(Traces[tid].init.nz, Traces[tid].nf), al |-> Traces[tid].init.al,
-                   nf |-> Traces[tid].nf]
+         /\ esc = EscOf(Traces[tid].init.regs, Traces[tid].init.al, Traces[tid].nf)
          /\ obj = NoObj /\ call = Idle
 
 TCall(e) == e.k = "call" /\ Call(e)
 TWrite(e) == e.k = "w" /\ Write(e.t, e.ado, e.data)
 TRet(e) == /\ e.k = "ret"
-           /\ RegOf(e.nz, esc.nf) = esc.reg /\ e.al = esc.al
-           /\ Return(e.ok, e.view, e.other)
+           /\ EscOf(e.regs, e.al, esc.nf) = esc
+           /\ IF e.ok THEN Return(e.view, e.other) ELSE Fail
 TEnv(e) == /\ e.k = "env"
            /\ IF e.what = "al" THEN EnvAl(e.al) ELSE EnvNewObj
 
